@@ -67,3 +67,22 @@ Print Assumptions C18_designated_class_in_table.
 Example C18_example :
   tupdate (tconstruct [mkS 0 0 1 0 None; mkS 1 1 1 0 None]) [mkS 1 2 1 0 None; mkS 2 3 1 0 None] = Some [(0, 0); (1, 1); (2, 2)].
 Proof. reflexivity. Qed.
+
+(* ---- round 4: attributes reassigned after construction (Model/CalibX.v) never touch the id table ---- *)
+From BlackIt Require Import Model.CalibX Proofs.CalibXP.
+Theorem C18_table_unaffected_by_attribute_reassignment :
+  forall Param Series LossV model lossf loss_leb rounds0 propose draws agent_actions plan s x s1 e r,
+  (forall o, x <> XOp o) ->
+  xstep Param Series LossV model lossf loss_leb rounds0 propose draws agent_actions plan s x = (s1, e, r) ->
+    tbl _ _ _ (live _ _ _ s1) = tbl _ _ _ (live _ _ _ s) /\ methods _ _ _ (live _ _ _ s1) = methods _ _ _ (live _ _ _ s) /\
+    disk _ _ _ s1 = disk _ _ _ s /\
+    map s_class (sched_samplers _ (sch _ _ _ (live _ _ _ s1))) = map s_class (sched_samplers _ (sch _ _ _ (live _ _ _ s))).
+Proof.
+  intros until r. intros Hx H. destruct x as [o | p v sv | u b].
+  - exfalso. eapply Hx; reflexivity.
+  - apply xsetcfg_frame in H. destruct H as (_ & _ & Hd & Hr & Hs & Ht & _). unfold records in Hr.
+    repeat split; try congruence.
+  - apply xsetbsize_frame in H. destruct H as (_ & _ & Hd & Hr & _ & Ht & _ & Hs). unfold records in Hr.
+    repeat split; try congruence. rewrite Hs, map_map. apply map_ext. intros a. apply (set_bsize_keeps u b a).
+Qed.
+Print Assumptions C18_table_unaffected_by_attribute_reassignment.
